@@ -11,7 +11,7 @@
    (zero seeds give zero/None results; C01/C04).  Sensitivities are compared with ceq: up to None = zero array
    (keep_alloc keeps zeroed arrays, a slice leaves a zeroed base array behind). *)
 From Coq Require Import ZArith List Bool Arith.
-From Pymoto Require Import Base.Num Model.Net Model.Hist Proofs.NetP Proofs.HistP.
+From Pymoto Require Import Base.Num Model.Net Model.Hist Proofs.NetP Proofs.HistP Model.HistBuild Proofs.HistBuildP.
 Import ListNotations.
 
 Definition comm_ring (K : Type) `{Num K} : Prop := ring_theory nzero none_ nadd nmul nsub nopp (@eq K).
@@ -323,6 +323,38 @@ Theorem C03_user_cache_is_cache_correct :
   forall (ins : list ref) (outs : list nat) (L : lin Z), cc (cached_h ins outs L) (cached_spec L).
 Proof. exact cached_h_cache_correct. Qed.
 Print Assumptions C03_user_cache_is_cache_correct.
+
+(* ---- CONSTRUCTION HISTORIES (Model/HistBuild.v).  The theorems above run a history on the FINAL flat module list.  In
+   /repo a network can also be put together in any order of append() calls -- an inner network placed in the outer one
+   while it is still empty, extended afterwards (by modules and by further networks), also after the outer network was
+   evaluated.  That the behaviour of a constructed network is a function of its member tree only (not of the order of
+   the append calls, nor of the sig_in / sig_out lists a Network gathers in its own append) is C02's statement
+   (Model/NetBuild.v, C02_behaviour_is_a_function_of_the_member_tree); here it is covered by the CORRESPONDENCE
+   (run_built: every op is applied to the modules the outer network reaches at that moment, a module not reached yet is
+   `absent_h` at its position) and by the oracle (after reset() no signal found by walking the member tree holds a
+   non-zero sensitivity; final cycle = freshly constructed network).  Proved here only: construction without
+   evaluation in between is the flat model, the last segment is an ordinary history, an unreached module is inert for
+   reset().  NOT proved: history independence for histories that evaluate partially built networks (the invariants of
+   C03_core_history_independent would have to be carried through changing module lists). *)
+Theorem C03_construction_without_evaluation_is_the_flat_model :
+  forall (K : Type) (NK : Num K) (M : Type) (keep : nat -> bool) (mods : list (hmod M))
+         (segs : list (list bool * list op)) (x : nst M),
+    (forall sg, In sg segs -> all_true (fst sg) = true \/ snd sg = []) ->
+    run_built keep mods segs x = run keep mods (concat (map snd segs)) x.
+Proof. exact (@run_built_complete). Qed.
+Print Assumptions C03_construction_without_evaluation_is_the_flat_model.
+
+Theorem C03_construction_last_segment_is_a_history :
+  forall (K : Type) (NK : Num K) (M : Type) (keep : nat -> bool) (mods : list (hmod M))
+         (segs : list (list bool * list op)) (vis : list bool) (ops : list op) (x : nst M),
+    run_built keep mods (segs ++ [(vis, ops)]) x = run keep (visible vis mods) ops (run_built keep mods segs x).
+Proof. exact (@run_built_snoc). Qed.
+Print Assumptions C03_construction_last_segment_is_a_history.
+
+Theorem C03_unreached_module_is_inert_for_reset :
+  forall (K M : Type), mod_refs (@absent_h K M) = [].
+Proof. exact (@absent_no_refs). Qed.
+Print Assumptions C03_unreached_module_is_inert_for_reset.
 
 (* ---- non-vacuity: a three-module network (slice, keep_alloc input, square module) with an 8-op history meets every
    hypothesis of C03_core_history_independent; corpus/C03/example.json runs the same history on the implementation *)
